@@ -1506,6 +1506,9 @@ def _c15b_worker(args):
                 A0, B0 = content_map(pre["A"]), content_map(pre["B"])
                 A1, B1 = content_map(post["A"]), content_map(post["B"])
                 listed = set()
+                # a divergent edit announced in the same run (re)creates `<path>.conflict-...`: a delete announced
+                # for that very name is carried out and then superseded by the copy the conflict preserves
+                recreated = {q for act2, p2 in recs if act2 == "Conflict(BothChanged)" for q in set(A1) | set(B1) if q.startswith(p2 + ".conflict-")}
                 for act, p in recs:
                     listed.add(p)
                     ok = True
@@ -1514,9 +1517,9 @@ def _c15b_worker(args):
                     elif act == "PropagateBtoA":
                         ok = A1.get(p) == B0.get(p) and B1.get(p) == B0.get(p)
                     elif act == "DeleteA":
-                        ok = p not in A1
+                        ok = p not in A1 or (p in recreated and A1.get(p) == B1.get(p))
                     elif act == "DeleteB":
-                        ok = p not in B1
+                        ok = p not in B1 or (p in recreated and A1.get(p) == B1.get(p))
                     elif act == "Conflict(BothChanged)":
                         ok = A0.get(p) in set(A1.values()) and A0.get(p) in set(B1.values()) and B0.get(p) in set(A1.values()) and B0.get(p) in set(B1.values())
                         listed |= {q for q in set(A1) | set(B1) if q.startswith(p + ".conflict-")}
